@@ -464,6 +464,22 @@ def target_below_own(case):
     return False
 
 
+def targets_nest(case):
+    """True when the path of one build_file target of the case is a proper ancestor of another's.  Such a
+    program is only possible because one of the two calls fails; the failing one still needs the other's
+    path as a directory for a while, so the implementation has to move a reusable old output at that path
+    out of the way and re-runs its function, while Model/Core.v (an idealisation: the stale store is not
+    a place on disk) serves it.  Results and trees agree with the reference either way; only the
+    exact-agreement comparison with Core is skipped."""
+    ts = set()
+    blocks = [st[2] for st in case["history"] if st[0] == "build"] + [b for f in case["funcs"].values() for b in f.values()]
+    for blk in blocks:
+        for s in _stmts(blk):
+            if s[0] == "build_file":
+                ts.add(tuple(s[2]))
+    return any(len(q) > len(p) and q[:len(p)] == p for p in ts for q in ts)
+
+
 def cache_only_dirs(case):
     """True when the directories holding the cache file may be created by the build
     itself (the latitude of C04: such directories are not observed consistently)."""
